@@ -95,7 +95,12 @@ impl State {
             // If the counter is already idle, and no updates were made since the last time the counter was flushed,
             // then we've already emitted our zero value and no longer need to emit updates until the counter is active
             // again.
-            if points_flushed == 0 {
+            //
+            // Idleness is decided on the flushed delta rather than on the number of updates: an update increments the
+            // counter value and the update count in two separate steps, so a flush running in between can observe a
+            // non-zero delta together with an update count of zero (or the other way around). Keying on the update
+            // count would then either drop that delta for an idle counter, or never send the final zero value.
+            if value == 0 {
                 if flush_state.is_counter_idle(&key) {
                     continue;
                 }
